@@ -18,11 +18,16 @@ def testdataPrefix : Str := "cmd/protoc-gen-go/testdata/".toList.map Char.toNat
 def fileEdition (p : FileP) : Nat :=
   if p.syn == 9 then p.edition else if p.syn == 3 then editionProto3 else editionProto2
 
+/-- `protodesc.isKnownEdition`: the editions the testdata exemption admits. -/
+def isKnownEdition (ed : Nat) : Bool :=
+  hatchEditions.contains ed && ((minimumEdition ≤ ed && ed ≤ maximumEdition) || ed == editionUnstable)
+
 def checkHeader (p : FileP) : V :=
   seq (guardV (p.syn == 1) .invalidSyntax) <|
   seq (guardV p.path.isEmpty .emptyPath) <|
+  -- `if !strings.HasPrefix(name, "cmd/protoc-gen-go/testdata/") || !isKnownEdition(edition) { return error }`
   seq (guardV (p.syn == 9 && (p.edition < supportMinimum || supportMaximum < p.edition) && p.edition != editionUnstable
-        && !(testdataPrefix.isPrefixOf p.path)) .unsupportedEdition) <|
+        && (!(testdataPrefix.isPrefixOf p.path) || !isKnownEdition p.edition)) .unsupportedEdition) <|
   seq (guardV (!isValidFullName p.pkg && !p.pkg.isEmpty) .invalidPackage) <|
   -- initFileDescFromFeatureSet → getFeatureSetFor: `panic` / `os.Exit(1)` for editions outside the table
   guardV (defaultsFor (fileEdition p)).isNone .editionPanic
@@ -327,8 +332,10 @@ def buildField (c : Ctx) (parent : GoFeatures) (scope : Str) (parentIsMapEntry :
   let tgt := findTarget c kind0 (p.typeName.getD [])
   let t : Target := match tgt with | .ok t => t | .error _ => { kind := kind0 }
   let tgtErr : Option Rule := match tgt with | .ok _ => none | .error e => some e
+  -- `if fd.Type == nil && Kind == MessageKind && IsDelimitedEncoded { Kind = GroupKind }` (c4513e1)
+  let k1 := if p.type == 0 && t.kind == kMessage && feat.isDelimitedEncoded then kGroup else t.kind
   let isMap := match t.messageT with | some m => m.isMapEntry | none => false
-  let kind := if t.kind == kGroup && (isMap || parentIsMapEntry) then kMessage else t.kind
+  let kind := if k1 == kGroup && (isMap || parentIsMapEntry) then kMessage else k1
   let presence := hasPresence card false feat t.messageT.isSome oneof.isSome
   let defErr := defaultErr c p kind card t.enumT presence
   { p := p, fullName := fullAppend scope p.name, index := idx, isExtension := false
@@ -348,10 +355,11 @@ def buildExt (c : Ctx) (parent : GoFeatures) (scope : Str) (idx : Nat) (p : Fiel
   let tgt := findTarget c kind0 (p.typeName.getD [])
   let t : Target := match tgt with | .ok t => t | .error _ => { kind := kind0 }
   let tgtErr : Option Rule := match tgt with | .ok _ => none | .error e => some e
+  let kind := if p.type == 0 && t.kind == kMessage && feat.isDelimitedEncoded then kGroup else t.kind
   let presence := hasPresence card true feat t.messageT.isSome false
-  let defErr := defaultErr c p t.kind card t.enumT presence
+  let defErr := defaultErr c p kind card t.enumT presence
   { p := p, fullName := fullAppend scope p.name, index := idx, isExtension := true
-    parentIsMapEntry := false, features := feat, cardinality := card, kind := t.kind
+    parentIsMapEntry := false, features := feat, cardinality := card, kind := kind
     enumT := t.enumT, messageT := t.messageT
     extendeeT := match ext with | .ok t => some t | .error _ => none
     hasDefault := p.defaultOk.isSome
